@@ -86,7 +86,7 @@ def spec_terms(it, pwd, salt):
     return da, dp, ds
 
 
-def build(cid, target, names, params, globals_, prop):
+def build(cid, target, names, params, globals_, prop, replay=None):
     """names: pwd, plen, db, ctx (hash object variable of digest A), salt (variable holding the salt BYTES at loop time)"""
     pwd, plen, db, ctx = names["pwd"], names["plen"], names["db"], names["ctx"]
     fn = target.split("::")[-1]
@@ -171,7 +171,7 @@ def build(cid, target, names, params, globals_, prop):
             f"{fn}#4": Loop(ghost_step=pair_cut(f"{names['rounds']} - tail")),
         },
         ensures=[("result == transposed encoding (with this variant's table) of C(rounds) of the published round schedule", post)],
-        max_paths=400, time_budget=300, prune_timeout_ms=100, max_depth=6, prefer="cvc5", tier="thorough",
+        max_paths=400, time_budget=300, prune_timeout_ms=100, max_depth=6, prefer="cvc5", tier="thorough", timeout_ms=240000, replay=replay,
         prop=prop,
         descr="every password (no NUL), every salt <= 16 bytes, every rounds in [1000, 999999999]; H abstract with 32..64 byte digests",
     )
@@ -195,7 +195,7 @@ def _passlib(prop, USE512, ctor):
                "requires": ["1000 <= rounds <= 999999999", "len(salt) < 17", "b'\\x00' not in pwd", lambda it, env: it.all_codes_below(it.to_z3(env.lookup("salt")), 128)]},
         params={"pwd": Bytes(), "salt": Str(), "rounds": Int(), "use_512": Const(USE512)},
         globals_={"hashlib": SModule("hashlib", {"sha256": ctor, "sha512": ctor})},
-        prop=prop,
+        prop=prop, replay=_replay("passlib", USE512),
     )
 
 
@@ -207,8 +207,61 @@ def libpass_contract(prop):
                "requires": ["1000 <= rounds <= 999999999", "len(salt) < 17"]},
         params={"secret": Bytes(), "salt": Bytes(), "rounds": Int(), "hash_method": Const(hash_ctor(None)), "transpose_map": Const((7, 7, 7))},
         globals_={},
-        prop=prop,
+        prop=prop, replay=_replay("libpass"),
     )
+
+
+_REF = r"""
+import hashlib
+from passlib.handlers.sha2_crypt import _raw_sha2_crypt
+from libpass.hashers.sha_crypt import _sha_crypt, _256_transpose_map, _512_transpose_map
+P256 = [(0, 10, 20), (21, 1, 11), (12, 22, 2), (3, 13, 23), (24, 4, 14), (15, 25, 5), (6, 16, 26), (27, 7, 17), (18, 28, 8), (9, 19, 29)]
+P512 = [(0, 21, 42), (22, 43, 1), (44, 2, 23), (3, 24, 45), (25, 46, 4), (47, 5, 26), (6, 27, 48), (28, 49, 7), (50, 8, 29), (9, 30, 51), (31, 52, 10),
+        (53, 11, 32), (12, 33, 54), (34, 55, 13), (56, 14, 35), (15, 36, 57), (37, 58, 16), (59, 17, 38), (18, 39, 60), (40, 61, 19), (62, 20, 41)]
+def ref(pwd, salt, rounds, use_512):
+    hf = hashlib.sha512 if use_512 else hashlib.sha256
+    H = lambda b: hf(b).digest()
+    n = len(pwd); B = H(pwd + salt + pwd); D = len(B)
+    walk = b""; i = n
+    while i > 0:
+        walk += B if i & 1 else pwd; i >>= 1
+    a = H(pwd + salt + (B * (n // D + 1))[:n] + walk)
+    dp = (H(pwd * n) * (n // D + 1))[:n]
+    ds = H(salt * (16 + a[0]))[:len(salt)]
+    c = a
+    for i in range(rounds):
+        c = H((dp if i & 1 else c) + (ds if i % 3 else b"") + (dp if i % 7 else b"") + (c if i & 1 else dp))
+    itoa = "./0123456789ABCDEFGHIJKLMNOPQRSTUVWXYZabcdefghijklmnopqrstuvwxyz"
+    out = ""
+    for x, y, z in (P512 if use_512 else P256):
+        v = (c[x] << 16) | (c[y] << 8) | c[z]
+        for _ in range(4): out += itoa[v & 63]; v >>= 6
+    if use_512:
+        v = c[63]; k = 2
+    else:
+        v = (c[31] << 8) | c[30]; k = 3
+    for _ in range(k): out += itoa[v & 63]; v >>= 6
+    return out
+"""
+
+
+def _search(values):
+    out = []
+    for rounds in (1000, 1001, 1041, 1042, 1043, 1085, 2003):
+        for pwd in ("a", "password", "x" * 31, "y" * 32, "z" * 33, "w" * 64, "q" * 65, "p" * 97, "\u00e9\u00ff"):
+            for salt in ("", "b", "saltsaltsaltsalt"):
+                out.append(dict(values, pwd=pwd, salt=salt, rounds=rounds))
+    return out[:: 2]
+
+
+def _replay(kind, use_512=False):
+    from pyvc.replay import py_replay
+    if kind == "passlib":
+        call = f"r = (_raw_sha2_crypt(V['pwd'].encode('latin-1'), V['salt'], V['rounds'], {use_512}), ref(V['pwd'].encode('latin-1'), V['salt'].encode('ascii'), V['rounds'], {use_512}))"
+    else:
+        call = ("r = [(_sha_crypt(V['pwd'].encode('latin-1'), V['salt'].encode('ascii'), V['rounds'], hf, tm), ref(V['pwd'].encode('latin-1'), V['salt'].encode('ascii'), V['rounds'], u))"
+                " for hf, tm, u in ((hashlib.sha256, _256_transpose_map, False), (hashlib.sha512, _512_transpose_map, True))]\nr = (tuple(x[0] for x in r), tuple(x[1] for x in r))")
+    return py_replay(_REF, call, "exc is None and r[0] == r[1]", {"pwd": "a", "salt": "b", "rounds": 1000}, search=_search)
 
 
 def tables_equal():
